@@ -180,6 +180,13 @@ func checkLagrange(c *Ctx, r *Run) {
 		r.Unresolved("LAG-1", "pkg/math/polynomial.Lagrange")
 		return
 	}
+	// every entry point that takes an interpolation domain (argument 1)
+	lagFns := map[*ssa.Function]bool{lag: true}
+	for _, n := range []string{"LagrangeFor", "LagrangeSingle"} {
+		if f := c.LookupFunc("pkg/math/polynomial", n); f != nil {
+			lagFns[f] = true
+		}
+	}
 	var fns []*ssa.Function
 	for _, p := range c.LibPkgs() {
 		if !strings.Contains(p.PkgPath, "/protocols/") {
@@ -196,7 +203,7 @@ func checkLagrange(c *Ctx, r *Run) {
 		fn := fn
 		allInstrs(fn, func(in ssa.Instruction) {
 			call, ok := in.(*ssa.Call)
-			if !ok || call.Call.StaticCallee() != lag {
+			if !ok || !lagFns[call.Call.StaticCallee()] {
 				return
 			}
 			name := c.FuncName(fn)
@@ -232,7 +239,7 @@ func checkLagrange(c *Ctx, r *Run) {
 	// LAG-2: uses of coefficients
 	isLagMap := func(fn *ssa.Function, v ssa.Value) bool {
 		v = resolveLoad(v)
-		if call, ok := v.(*ssa.Call); ok && call.Call.StaticCallee() == lag {
+		if call, ok := v.(*ssa.Call); ok && lagFns[call.Call.StaticCallee()] && call.Call.StaticCallee().Name() != "LagrangeSingle" {
 			return true
 		}
 		if u, ok := v.(*ssa.UnOp); ok && u.Op == token.MUL {
